@@ -1,6 +1,7 @@
 package main
 
 import (
+	"os"
 	"fmt"
 	"go/constant"
 	"go/token"
@@ -191,6 +192,17 @@ func (w *Worker) callFunction(fn *ssa.Function, args []Value, env []Value) (res 
 			return w.callValue(st, args)
 		}
 	}
+	if fn.Pkg != nil && lazyInit[fn.Pkg.Pkg.Path()] && !w.lazyDone[fn.Pkg.Pkg.Path()] && fn.Name() != "init" {
+		if w.lazyDone == nil {
+			w.lazyDone = map[string]bool{}
+		}
+		w.lazyDone[fn.Pkg.Pkg.Path()] = true
+		if initFn := fn.Pkg.Func("init"); initFn != nil {
+			w.lazyForce = true
+			w.callFunction(initFn, nil, nil)
+			w.lazyForce = false
+		}
+	}
 	if fn.Blocks == nil {
 		if r, ok := w.external(fn, args); ok {
 			return r
@@ -235,8 +247,15 @@ func (w *Worker) callFunction(fn *ssa.Function, args []Value, env []Value) (res 
 	for i, fv := range fn.FreeVars {
 		fr.env[fv] = env[i]
 	}
+	var s0 int
+	if initProf && fn.Name() == "init" {
+		s0 = w.steps
+	}
 	for fr.block != nil {
 		fr.runBlocks()
+	}
+	if initProf && fn.Name() == "init" && w.steps-s0 > 200 {
+		fmt.Fprintf(os.Stderr, "initprof %s %d\n", fn.String(), w.steps-s0)
 	}
 	return fr.result
 }
@@ -1211,3 +1230,5 @@ func pkgPathOf(fn *ssa.Function) string {
 }
 
 func isIntrinsicName(n string) bool { return strings.HasPrefix(n, "verif") }
+
+var initProf = os.Getenv("VERIF_INITPROF") != ""
